@@ -176,8 +176,14 @@ fn main() {
             // tiny generated modules, parse+gc+emit on the parallel build vs the serial build, in-process.
             let n: u64 = args.get(2).and_then(|s| s.parse().ok()).unwrap_or(2);
             let threads: u32 = args.get(3).and_then(|s| s.parse().ok()).unwrap_or(3);
+            let only: Option<u64> = arg_after(&args, "--only").and_then(|s| s.parse().ok());
             let mut bad = 0;
             for i in 0..n {
+                if let Some(o) = only {
+                    if o != i {
+                        continue;
+                    }
+                }
                 let mut r = prng::Rng::new(prng::run_seed(verif_seed, "miri-c09", i));
                 let mut p = gen::GenParams::draw(&mut r, 6);
                 p.n_funcs = 4 + (i % 5) as u32;
